@@ -4,12 +4,11 @@ use rayon::prelude::*;
 use serde_json::{json, Value};
 use ureq_proto::client::flow::RedirectAuthHeaders;
 
-use super::flows::recv_response_flow_cfg;
 use crate::driver::{AnyFlow, ReqCfg};
 use crate::engine::{guarded, Report, Tier, Violation};
 use crate::refmodel::{head, redirect};
 
-pub const RULE: &str = "full product: method (9) x status 300..=399 x policy {Never, SameHost} x response body {Content-Length: 0, Content-Length: 3 + body, chunked body, no framing header} x Location {present, absent} = 14400 cells, each driven through the real flow from Prepare to the state after the response (through RecvBody where there is one), then as_new_flow and the head of the new request. distinct = distinct (method, status class, body kind, outcome) cells";
+pub const RULE: &str = "full product: method (9) x status 300..=399 x policy {Never, SameHost} x response body {Content-Length: 0, Content-Length: 3 + body, chunked body, no framing header} x Location {present, absent} x request mode {plain; send-body-despite-method (body-less methods); Expect: 100-continue refused by the 3xx itself, and late 100 delivered in the same buffer as the 3xx (body methods)} = 28800 cells, each driven through the real flow from Prepare to the state after the response (through RecvBody where there is one), then as_new_flow and the head of the new request. distinct = distinct (method, status class, body kind, outcome) cells";
 
 const METHODS: [&str; 9] = ["GET", "HEAD", "POST", "PUT", "DELETE", "CONNECT", "OPTIONS", "TRACE", "PATCH"];
 const BODIES: [&str; 8] = ["cl0", "cl3", "chunked", "none", "cl0-noloc", "cl3-noloc", "chunked-noloc", "none-noloc"];
@@ -20,13 +19,23 @@ fn check_cell(method: &str, status: u16, same_host: bool, body: &str) -> (Option
         Some(b) => (b, false),
         None => (body, true),
     };
-    let cell = format!("{} {} policy={} body={} location={}", method, status, if same_host { "SameHost" } else { "Never" }, body, with_loc);
+    // request-side mode, encoded as a prefix of the body kind: "despite+", "refused+", "late100+"
+    let (mode, body) = match body.split_once('+') {
+        Some((m, b)) => (m, b),
+        None => ("plain", body),
+    };
+    let cell = format!("{} {} policy={} body={} location={} mode={}", method, status, if same_host { "SameHost" } else { "Never" }, body, with_loc, mode);
     let r = guarded(|| -> Result<String, (String, String)> {
         let mut cfg = ReqCfg::new(method, "1.1", "http://a.test/p").orig("authorization", "S3CRET");
         if crate::refmodel::reqvalid::needs_body(method) {
             cfg = cfg.orig("content-length", "0");
         }
-        let mut f = recv_response_flow_cfg(&cfg).map_err(|e| ("C15:harness".to_string(), e))?;
+        if mode == "refused" || mode == "late100" {
+            cfg = cfg.orig("expect", "100-continue");
+        }
+        if mode == "despite" {
+            cfg = cfg.despite(true);
+        }
         let mut resp = format!("HTTP/1.1 {} X\r\n{}", status, if with_loc { "Location: /next\r\n" } else { "" });
         let body_bytes: &[u8] = match body {
             "cl0" => {
@@ -44,11 +53,64 @@ fn check_cell(method: &str, status: u16, same_host: bool, body: &str) -> (Option
             _ => b"",
         };
         resp.push_str("\r\n");
-        let (n, r) = f.try_response(resp.as_bytes()).map_err(|e| ("C15:harness".to_string(), format!("try_response: {:?}", e)))?;
-        if r.is_none() || n != resp.len() {
-            return Err(("C15:harness".into(), "response not accepted".into()));
+        // drive the request side by hand so that the Expect handshake can take each course
+        let h = |e: String| ("C15:harness".to_string(), e);
+        let pf = cfg.build_prepare().map_err(h)?;
+        let mut sr = pf.proceed();
+        let mut buf = vec![0u8; 4096];
+        sr.write(&mut buf).map_err(|e| h(format!("head: {:?}", e)))?;
+        let mut st = AnyFlow::SendRequest(sr).proceed().map_err(h)?.ok_or(h("cannot leave SendRequest".into()))?;
+        let mut guard = 0;
+        let mut f = loop {
+            guard += 1;
+            if guard > 8 {
+                return Err(h(format!("request side stuck in {}", st.name())));
+            }
+            st = match st {
+                AnyFlow::RecvResponse(f) => break f,
+                AnyFlow::Await100(mut a) => {
+                    if mode == "refused" {
+                        // the server answers with the 3xx instead of 100
+                        let n = a.try_read_100(resp.as_bytes()).map_err(|e| h(format!("try_read_100: {:?}", e)))?;
+                        if n != 0 {
+                            return Err(h("refusal consumed in Await100".into()));
+                        }
+                    }
+                    AnyFlow::Await100(a).proceed().map_err(h)?.ok_or(h("await100".into()))?
+                }
+                AnyFlow::SendBody(mut b) => {
+                    b.write(&[], &mut buf).map_err(|e| h(format!("finish body: {:?}", e)))?;
+                    AnyFlow::SendBody(b).proceed().map_err(h)?.ok_or(h("cannot leave SendBody".into()))?
+                }
+                o => return Err(h(format!("unexpected state {}", o.name()))),
+            };
+        };
+        let mut input: Vec<u8> = Vec::new();
+        if mode == "late100" {
+            input.extend_from_slice(b"HTTP/1.1 100 Continue\r\n\r\n");
+        }
+        input.extend_from_slice(resp.as_bytes());
+        let mut off = 0;
+        let mut tries = 0;
+        loop {
+            tries += 1;
+            if tries > 3 {
+                return Err(h("response not delivered".into()));
+            }
+            let (n, r) = f.try_response(&input[off..]).map_err(|e| h(format!("try_response: {:?}", e)))?;
+            off += n;
+            if r.is_some() {
+                break;
+            }
+            if n == 0 {
+                return Err(h("response not accepted".into()));
+            }
+        }
+        if off != input.len() {
+            return Err(h(format!("consumed {} of {} head bytes", off, input.len())));
         }
         let mut cur = AnyFlow::RecvResponse(f).proceed().map_err(|e| ("C15:harness".to_string(), e))?.ok_or(("C15:harness".to_string(), "proceed refused".to_string()))?;
+        let _ = &mut cur;
         if let AnyFlow::RecvBody(mut b) = cur {
             let mut out = [0u8; 16];
             let (c, _) = b.read(body_bytes, &mut out).map_err(|e| ("C15:harness".to_string(), format!("read: {:?}", e)))?;
@@ -113,7 +175,7 @@ fn check_cell(method: &str, status: u16, same_host: bool, body: &str) -> (Option
         _ => "other3xx",
     };
     match r {
-        Ok(Ok(o)) => (None, format!("{}|{}|{}|{}", method, sc, body, o)),
+        Ok(Ok(o)) => (None, format!("{}|{}|{}|{}|{}", method, sc, body, mode, o)),
         Ok(Err(e)) => (Some(e), "fail".into()),
         Err(p) => (Some((format!("C15:panic:{}", crate::engine::panic_site(&p)), format!("{}: {}", cell, p))), "panic".into()),
     }
@@ -125,7 +187,14 @@ pub fn run(_tier: Tier) -> Report {
         for s in 300..=399u16 {
             for p in [false, true] {
                 for b in BODIES {
-                    jobs.push((m, s, p, b));
+                    jobs.push((m, s, p, b.to_string()));
+                    let body_method = crate::refmodel::reqvalid::needs_body(m);
+                    if !body_method {
+                        jobs.push((m, s, p, format!("despite+{}", b)));
+                    } else {
+                        jobs.push((m, s, p, format!("refused+{}", b)));
+                        jobs.push((m, s, p, format!("late100+{}", b)));
+                    }
                 }
             }
         }
